@@ -8,10 +8,10 @@
 (*  {"op":"commit","b":id,"committed":[ids],"aborted":[ids],"err":bool}                       *)
 EXTENDS BlockStore, Json, TLC
 Trace == ndJsonDeserialize("trace.ndjson")
-VARIABLES l, forest, remote, stored, index, pruneH, lastView, reported
-vars == <<l, forest, remote, stored, index, pruneH, lastView, reported>>
+VARIABLES l, forest, remote, stored, index, pruneH, lastView, reported, done
+vars == <<l, forest, remote, stored, index, pruneH, lastView, reported, done>>
 Genesis == (0 :> [view |-> 0, parent |-> -1])
-Init == l = 0 /\ forest = Genesis /\ remote = {} /\ stored = {0} /\ index = {0} /\ pruneH = 0 /\ lastView = 0 /\ reported = {}
+Init == l = 0 /\ forest = Genesis /\ remote = {} /\ stored = {0} /\ index = {0} /\ pruneH = 0 /\ lastView = 0 /\ reported = {} /\ done = {}
 Line == Trace[l + 1]
 MkForest(blocks) == [i \in {0} \cup {blocks[j][1] : j \in 1..Len(blocks)} |->
                         IF i = 0 THEN [view |-> 0, parent |-> -1]
@@ -25,26 +25,27 @@ Step ==
     /\ l < Len(Trace)
     /\ l' = l + 1
     /\ CASE Line.op = "forest" -> /\ forest' = MkForest(Line.blocks) /\ remote' = ToSet(Line.remote) /\ stored' = {0} /\ index' = {0}
-                                  /\ pruneH' = 0 /\ lastView' = 0 /\ reported' = {}
+                                  /\ pruneH' = 0 /\ lastView' = 0 /\ reported' = {} /\ done' = {}
          [] Line.op = "store" -> /\ stored' = stored \cup {Line.b} /\ index' = index \cup {Line.b}
-                                 /\ UNCHANGED <<forest, remote, pruneH, lastView, reported>>
+                                 /\ UNCHANGED <<forest, remote, pruneH, lastView, reported, done>>
          [] Line.op = "get" -> /\ stored' = IF Line.h \in Avail THEN stored \cup {Line.h} ELSE stored
                                /\ index' = IF Line.h \in Avail THEN index \cup {Line.h} ELSE index
-                               /\ UNCHANGED <<forest, remote, pruneH, lastView, reported>>
+                               /\ UNCHANGED <<forest, remote, pruneH, lastView, reported, done>>
          [] Line.op = "extends" -> /\ stored' = stored \cup Fetched(Line.b, forest[Line.t].view)
                                    /\ index' = index \cup Fetched(Line.b, forest[Line.t].view)
-                                   /\ UNCHANGED <<forest, remote, pruneH, lastView, reported>>
+                                   /\ UNCHANGED <<forest, remote, pruneH, lastView, reported, done>>
          [] Line.op = "commit" ->
               IF Line.err THEN \* nothing is committed; the walk towards the committed block fetched what it could
                                /\ stored' = stored \cup {Line.b} \cup Fetched(Line.b, lastView) /\ index' = index \cup {Line.b} \cup Fetched(Line.b, lastView)
                                /\ lastView' = IF Line.committed = <<>> THEN lastView ELSE forest[Last(Line.committed)].view
-                               /\ UNCHANGED <<forest, remote, pruneH, reported>>
+                               /\ reported' = reported \cup ToSet(Line.aborted) /\ done' = done \cup ToSet(Line.committed)
+                               /\ UNCHANGED <<forest, remote, pruneH>>
               ELSE /\ stored' = stored \cup {Line.b} \cup Fetched(Line.b, lastView)
                    /\ index' = {x \in index \cup {Line.b} \cup Fetched(Line.b, lastView) : forest[x].view > forest[Line.b].view \/ forest[x].view <= pruneH}
                    /\ pruneH' = forest[Line.b].view /\ lastView' = forest[Line.b].view
-                   /\ reported' = reported \cup ToSet(Line.aborted)
+                   /\ reported' = reported \cup ToSet(Line.aborted) /\ done' = done \cup ToSet(Line.committed)
                    /\ UNCHANGED <<forest, remote>>
-         [] OTHER -> UNCHANGED <<forest, remote, stored, index, pruneH, lastView, reported>>
+         [] OTHER -> UNCHANGED <<forest, remote, stored, index, pruneH, lastView, reported, done>>
 Spec == Init /\ [][Step]_vars
 
 PropertyStep ==
@@ -55,7 +56,12 @@ PropertyStep ==
       [] Line.op = "extends" ->
            \* judged only when the walk can obtain every block it needs (have = really stored, logged by the driver)
            Walkable(forest, ToSet(Line.have) \cup remote, Line.b, forest[Line.t].view) => (Line.res <=> RefExtends(forest, Line.b, Line.t))
-      [] Line.op = "commit" -> ~Line.err => PruneSound(forest, Line.b, Line.aborted, reported)
+      [] Line.op = "commit" ->
+           \* also when the commit fails half way (an ancestor cannot be obtained): whatever is reported as abandoned is reported once
+           \* and is never a block that was, is now, or -- being judged at that later line -- will be executed
+           /\ ~Line.err => PruneSound(forest, Line.b, Line.aborted, reported)
+           /\ ToSet(Line.aborted) \cap reported = {} /\ Cardinality(ToSet(Line.aborted)) = Len(Line.aborted)
+           /\ (reported \cup ToSet(Line.aborted)) \cap (done \cup ToSet(Line.committed)) = {}
       [] OTHER -> TRUE
 ConformStep ==
     (l < Len(Trace)) =>
